@@ -31,8 +31,8 @@ import (
 	"unicode/utf8"
 
 	antlr "github.com/antlr/antlr4/runtime/Go/antlr/v4"
-	compact_time "github.com/kstenerud/go-compact-time"
 	"github.com/cockroachdb/apd/v2"
+	compact_time "github.com/kstenerud/go-compact-time"
 	"github.com/kstenerud/go-concise-encoding/ce"
 	"github.com/kstenerud/go-concise-encoding/ce/events"
 	"github.com/kstenerud/go-concise-encoding/configuration"
@@ -414,7 +414,7 @@ type c02Text struct {
 }
 
 func (g *c02Text) pick(xs ...string) string { return xs[g.r.Intn(len(xs))] }
-func (g *c02Text) chance(n int) bool      { return g.r.Intn(n) == 0 }
+func (g *c02Text) chance(n int) bool        { return g.r.Intn(n) == 0 }
 
 func (g *c02Text) ws() string {
 	n := 1 + g.r.Intn(3)
@@ -1078,17 +1078,17 @@ func c02Directed() map[string][]Ev {
 		"comment-top":              c02Doc(Ev{K: "cm", Data: []byte("top")}, Ev{K: "cm", B: true, Data: []byte("top2")}, Ev{K: "pi", N: 1}),
 		"comment-in-map": c02Doc(Ev{K: "m"}, Ev{K: "cm", Data: []byte("k")}, Ev{K: "pi", N: 1}, Ev{K: "cm", Data: []byte("v")}, Ev{K: "cm", B: true, Data: []byte("v2")}, Ev{K: "pi", N: 2},
 			Ev{K: "cm", B: true, Data: []byte("e")}, Ev{K: "e"}),
-		"comment-in-node":   c02Doc(Ev{K: "node"}, Ev{K: "cm", Data: []byte("k")}, Ev{K: "pi", N: 1}, Ev{K: "cm", Data: []byte("v")}, Ev{K: "pi", N: 2}, Ev{K: "cm", B: true, Data: []byte("w")}, Ev{K: "e"}),
-		"comment-in-edge":   c02Doc(Ev{K: "edge"}, Ev{K: "cm", Data: []byte("k")}, Ev{K: "pi", N: 1}, Ev{K: "cm", B: true, Data: []byte("v")}, Ev{K: "pi", N: 2}, Ev{K: "pi", N: 3}, Ev{K: "cm", Data: []byte("x")}, Ev{K: "e"}),
+		"comment-in-node":              c02Doc(Ev{K: "node"}, Ev{K: "cm", Data: []byte("k")}, Ev{K: "pi", N: 1}, Ev{K: "cm", Data: []byte("v")}, Ev{K: "pi", N: 2}, Ev{K: "cm", B: true, Data: []byte("w")}, Ev{K: "e"}),
+		"comment-in-edge":              c02Doc(Ev{K: "edge"}, Ev{K: "cm", Data: []byte("k")}, Ev{K: "pi", N: 1}, Ev{K: "cm", B: true, Data: []byte("v")}, Ev{K: "pi", N: 2}, Ev{K: "pi", N: 3}, Ev{K: "cm", Data: []byte("x")}, Ev{K: "e"}),
 		"comment-first-in-nested-node": c02Doc(Ev{K: "node"}, Ev{K: "node"}, Ev{K: "cm", Data: []byte("")}, Ev{K: "null"}, Ev{K: "e"}, Ev{K: "null"}, Ev{K: "e"}),
 		"float-array-nan-payload":      c02List(Ev{K: "a", A: events.ArrayTypeFloat32, N: 2, Data: []byte{0, 0, 0x80, 0x3f, 1, 0, 0xc0, 0x7f}}),
 		"float-array-negative-nan":     c02List(Ev{K: "a", A: events.ArrayTypeFloat64, N: 1, Data: []byte{0, 0, 0, 0, 0, 0, 0xfc, 0xff}}),
 		"bigfloat-one":                 c02List(Ev{K: "bf", BF: new(big.Float).SetPrec(53).SetInt64(1)}, Ev{K: "bf", BF: new(big.Float).SetPrec(10).SetInt64(-1)}),
 		"bigfloat-others":              c02List(Ev{K: "bf", BF: new(big.Float).SetPrec(53).SetInt64(2)}, Ev{K: "bf", BF: new(big.Float).SetPrec(100).SetFloat64(1.5)}, Ev{K: "bf", BF: new(big.Float).SetPrec(100).SetInt(new(big.Int).Add(bigPow2(80), big.NewInt(1)))}, Ev{K: "bf", BF: new(big.Float).SetPrec(64).SetMantExp(big.NewFloat(0.75), -3000)}),
 		"bigdecimal-wide":              c02List(Ev{K: "bdf", BDF: apdOf(true, new(big.Int).Add(bigPow2(64), big.NewInt(5)), -7)}, Ev{K: "bdf", BDF: apdOf(false, bigPow2(63), 3)}),
-		"comment-after-marker": c02Doc(Ev{K: "mk", Data: []byte("a")}, Ev{K: "cm", Data: []byte("k")}, Ev{K: "pi", N: 1}),
-		"padding":           c02Doc(Ev{K: "pad"}, Ev{K: "l"}, Ev{K: "pad"}, Ev{K: "pi", N: 1}, Ev{K: "pad"}, Ev{K: "pad"}, Ev{K: "e"}),
-		"empty-containers":  c02List(Ev{K: "l"}, Ev{K: "e"}, Ev{K: "m"}, Ev{K: "e"}, Ev{K: "node"}, Ev{K: "null"}, Ev{K: "e"}),
+		"comment-after-marker":         c02Doc(Ev{K: "mk", Data: []byte("a")}, Ev{K: "cm", Data: []byte("k")}, Ev{K: "pi", N: 1}),
+		"padding":                      c02Doc(Ev{K: "pad"}, Ev{K: "l"}, Ev{K: "pad"}, Ev{K: "pi", N: 1}, Ev{K: "pad"}, Ev{K: "pad"}, Ev{K: "e"}),
+		"empty-containers":             c02List(Ev{K: "l"}, Ev{K: "e"}, Ev{K: "m"}, Ev{K: "e"}, Ev{K: "node"}, Ev{K: "null"}, Ev{K: "e"}),
 		"specials": c02List(Ev{K: "nan", B: true}, Ev{K: "nan"}, Ev{K: "null"}, Ev{K: "t"}, Ev{K: "f"}, Ev{K: "b", B: true}, Ev{K: "bi"}, Ev{K: "bf"}, Ev{K: "bdf"},
 			Ev{K: "uid", Data: []byte{0, 1, 2, 3, 4, 5, 6, 7, 8, 9, 10, 11, 12, 13, 14, 255}}),
 	}
@@ -1133,7 +1133,7 @@ func c02TimeEvents(r *rand.Rand, n int) []Ev {
 // ---------------------------------------------------------------------------
 
 func runC02(c *Ctx) {
-	c.Rep.Rule = "oracle: rules-valid streams from the tree generator with every option on (comments at every position the generator knows, padding, markers/references, records, edges, nodes, media, custom binary and text, big numbers, times with every zone form, chunked arrays, Unicode text), streams with inexact big floats in their own class, directed streams (integer and float edges, comments with every delimiter-like content, each known finding), strings / identifiers / comments over every code point at a class boundary of the lexer's and the encoder's tables, every latitude and longitude hundredth; correspondence: encoder text of those streams, grammar-driven documents (all spellings), byte mutations; non-trivial = more than 4 events (streams) or a document the decoder accepts; distinct by event text / document"
+	c.Rep.Rule = "oracle (ce.NewRules -> ce.NewCTEEncoder -> text -> ce.NewCTEDecoder -> ce.NewRules -> recorder, denotations equal up to padding): rules-valid streams from the tree generator with every option on (comments, padding, markers/references, records, edges, nodes, media, custom binary and text, big numbers, times with every zone form, chunked arrays, Unicode text; multi-line comments made representable), the same with inexact big floats, directed streams (integer and float edges, comments with every delimiter-like content, one stream per known finding), strings / resource ids / custom text / comments / identifiers over every code point at a class boundary of the lexer's three tables (read off the generated lexer) and every code point below U+0100, every latitude and every longitude hundredth (thorough; every 37th in quick), random times; model assumption: the float computation of coordinate hundredths is exact on all 222,000 coordinate texts the grammar allows. correspondence (decoder without validator, exact events): encoder text of those streams together with the encoder model's text and the denotation comparison, grammar-driven documents using every spelling of CTELexer.g4 / CTEParser.g4 (a quarter of them deliberately damaged), single scalars, byte mutations of both; non-trivial = a stream of more than 4 events or a document the decoder accepts with more than 4 events; distinct by event text / document text"
 
 	k := &c02Corr{c: c, cf: c.Cases("cteread", "CE.Model.CteRead", "cteread_case", "cteread_case_ok"), max: c.Pick(1900, 24000)}
 	k.cf.perFile = 250
@@ -1192,25 +1192,20 @@ func runC02(c *Ctx) {
 		ctext := strings.NewReplacer("\n", "", "\r", "", "*", "", "/", "").Replace(chunk)
 		c02Check(c, c02List(Ev{K: "cm", Data: []byte(ctext)}, Ev{K: "cm", B: true, Data: []byte(ctext)}, Ev{K: "null"}), "codepoints-comment")
 	}
-	// identifiers: one marker per identifier character
-	idBody := []Ev{}
-	cnt := 0
+	// identifiers: every boundary code point in a marker / reference / record type name; the validator decides
+	// which of them are identifiers (streams it rejects are outside the property)
+	lastID := []Ev{}
 	for _, r := range runesB {
-		if c02InClass(cl.ident, r) {
-			id := "i" + string(r)
-			idBody = append(idBody, Ev{K: "mk", Data: []byte(id)}, Ev{K: "null"}, Ev{K: "ref", Data: []byte(id)})
-			cnt++
-			if cnt%20 == 0 {
-				c02Check(c, c02List(idBody...), "codepoints-identifier")
-				idBody = nil
-			}
+		id := "i" + string(r)
+		es := c02Doc(Ev{K: "rt", Data: []byte(id)}, Ev{K: "e"}, Ev{K: "l"}, Ev{K: "mk", Data: []byte(id)}, Ev{K: "null"}, Ev{K: "ref", Data: []byte(id)},
+			Ev{K: "rec", Data: []byte(id)}, Ev{K: "e"}, Ev{K: "e"})
+		if text, fine := c02Check(c, es, "codepoints-identifier"); fine && text != nil && c02InClass(cl.ident, r) && r > 0x2000 {
+			lastID = es
 		}
 	}
-	if len(idBody) > 0 {
-		es := c02List(idBody...)
-		text, _ := c02Check(c, es, "codepoints-identifier")
-		if text != nil {
-			k.addRound(es, text, "round-codepoints")
+	if len(lastID) > 0 {
+		if text, _, _ := c02Encode(lastID); text != nil {
+			k.addRound(lastID, text, "round-codepoints")
 		}
 	}
 
